@@ -64,3 +64,20 @@ M("C12-R3-notlike-not-negated", "C12", [(S, "                                   
 M("C12-R4-eeq-uses-glob", "C12", [(S, "Op::Eeq => val.eq(&field_value.to_string()),", "Op::Eeq => Regex::new(&convert_glob_to_pattern(&val)).map(|r| r.is_match(&field_value.to_string())).unwrap_or(false),")], ["exact_Eeq"])
 M("C12-R4-like-uses-glob", "C12", [(S, "let pattern = convert_like_to_pattern(&val);", "let pattern = convert_glob_to_pattern(&val);", 2)], ["translator_Like"])
 M("C12-R4-isglob-star-only", "C12", [(G, "s.contains(\"*\") || s.contains('?')", "s.contains(\"*\")")], ["is_glob"])
+
+# ---------------------------------------------------------------- C11
+L, FI, Q = "src/lexer.rs", "src/field.rs", "src/query.rs"
+M("C11-R1-field-dirname", "C11", [(FI, '"dir" | "directory" | "dirname" => Ok(Field::Directory),', '"dir" | "directory" => Ok(Field::Directory),')], ["column_missing_dirname"])
+M("C11-R1-function-pow", "C11", [(F, '"power" | "pow" => Ok(Function::Power),', '"power" => Ok(Function::Power),')], ["function_missing_pow"])
+M("C11-R1-ext-maps-name", "C11", [(FI, '"ext" | "extension" => Ok(Field::Extension),', '"extension" => Ok(Field::Extension),\n            "ext" => Ok(Field::Name),')], ["column_wrong_ext"])
+M("C11-R1-format-case", "C11", [(Q, "let s = s.to_lowercase();\n\n        match s.as_str() {", "let s = s.to_string();\n\n        match s.as_str() {")], ["format_case"])
+M("C11-R1-arith-mod", "C11", [(O, '"%" | "mod" => Some(ArithmeticOp::Modulo),', '"%" => Some(ArithmeticOp::Modulo),')], ["arithmetic_missing_mod"])
+M("C11-R2-depth-sets-min", "C11", [(P, 'if s == "mindepth" {\n                                mode = RootParsingMode::MinDepth;\n                            } else if s == "maxdepth" || s == "depth" {', 'if s == "mindepth" || s == "depth" {\n                                mode = RootParsingMode::MinDepth;\n                            } else if s == "maxdepth" {')], ["root-option-effect_depth"])
+M("C11-R2-sym-sets-archives", "C11", [(P, "symlinks = true;", "archives = true;")], ["root-option-effect_sym"])
+M("C11-R2-nogit-true", "C11", [(P, "gitignore = Some(false);", "gitignore = Some(true);")], ["root-option-effect_nogit"])
+M("C11-R3-lexer-ge-removed", "C11", [(L, '"eq" | "ne" | "gt" | "lt" | "ge" | "le"', '"eq" | "ne" | "gt" | "lt" | "le"')], ["operator-word_ge"])
+M("C11-R3-lexer-no-lowercase", "C11", [(L, "LexingMode::RawString => match s.to_lowercase().as_str() {", "LexingMode::RawString => match s.as_str() {")], ["lexer_case"])
+M("C11-R3-asc-not-dropped", "C11", [(L, '"asc" => self.next_lexem(),', '"asc" => Some(Lexem::RawString(s)),')], ["lexer_asc"])
+M("C11-R4-group-case", "C11", [(P, 'if s.to_lowercase() == "group" {\n                                if let Some(Lexem::By) = self.next_lexem() {\n                                    self.drop_lexem();\n                                    self.drop_lexem();\n                                    break;', 'if s == "group" {\n                                if let Some(Lexem::By) = self.next_lexem() {\n                                    self.drop_lexem();\n                                    self.drop_lexem();\n                                    break;')], ["case_parse_fields_group"])
+M("C11-R4-opfrom-case", "C11", [(O, "match text.to_lowercase().as_str() {\n            \"=\" | \"==\"", "match text.as_str() {\n            \"=\" | \"==\"")], ["operator_case"])
+M("C11-R5-curly-close-any", "C11", [(P, "if (lexem == Lexem::Close && !curly_mode)\n                        || (lexem == Lexem::CurlyClose && curly_mode) =>", "if lexem == Lexem::Close =>")], ["brackets_parse_function"])
